@@ -427,24 +427,27 @@ func run(c Case) *kit.Result {
 		}
 	} else {
 		// the history starts from a document written by another producer
+		if verr := c.Start.valid(); verr != nil {
+			res.Label("malformed-start") // a hand-written replay outside the domain: nothing to judge
+			res.Count("excluded:malformed-start", 1)
+			return res
+		}
 		var err error
 		fb := foreignPackage(c.Start)
-		if p, st := kit.Try(func() { doc, err = document.OpenFromMemory(io.NopCloser(bytes.NewReader(fb))) }); p != nil || err != nil || doc == nil {
+		if p, st := kit.Try(func() { doc, err = openForeign(fb, c.Start.File) }); p != nil || err != nil || doc == nil {
 			res.Fail("C11.H4", "%s a valid package of another producer cannot be opened: %v %v [%s]", tag(key{}, -1, "call", ""), err, p, st)
 			return res
 		}
 		res.Label("foreign-start")
-		word := false
-		for _, s := range c.Start.Slots {
-			m[s.key()] = def{Text: s.Text, Op: -1, Via: "other producer, part " + s.Part}
-			defs[s.key()]++
-			if s.Part != libPart(s.key()) {
-				word = true
-			}
-			shape = append(shape, "start:"+s.key().String()+"="+s.Part)
+		for _, l := range startLabels(c.Start) {
+			res.Label("foreign-start:" + l)
 		}
-		if word {
-			res.Label("foreign-start:word-part-names")
+		for _, s := range c.Start.Slots {
+			if !s.Unref {
+				m[s.key()] = def{Text: s.Text, Op: -1, Via: "other producer, part " + s.Part + ", target " + s.target()}
+				defs[s.key()]++
+			}
+			shape = append(shape, startShape(s))
 		}
 		if !checkpoint(res, doc, m, "open", -1) {
 			return res
@@ -572,6 +575,7 @@ func run(c Case) *kit.Result {
 			if _, had := m[k]; had && sinceReplace {
 				redefAfterReopen++
 			}
+			noteForeignDef(res, c.Start, k, defs[k])
 			m[k] = d
 			defs[k]++
 			nDefs++
